@@ -525,7 +525,14 @@ func markerLineExact(ctx *core.Ctx, rule string) {
 			n++
 			trimmed := ssax.DerivedFrom(c.Call.Args[0], func(v ssa.Value) bool {
 				tc, ok := v.(*ssa.Call)
-				return ok && (strings.HasPrefix(ssax.CalleeName(&tc.Call), "bytes.Trim") || strings.HasPrefix(ssax.CalleeName(&tc.Call), "strings.Trim"))
+				if !ok || !(strings.HasPrefix(ssax.CalleeName(&tc.Call), "bytes.Trim") || strings.HasPrefix(ssax.CalleeName(&tc.Call), "strings.Trim")) {
+					return false
+				}
+				// TrimSuffix(line, "\r") removes exactly the one CR the format allows
+				if _, sfx, isWS := withoutSuffix(tc); isWS && sfx == "\r" {
+					return false
+				}
+				return true
 			}, nil)
 			ctx.Check(!trimmed, rule, shortFn(f)+"#suffix-test"+itoa(n), c.Pos(), "the closing delimiter is looked for at the end of the line as written (minus one CR), not of a trimmed copy")
 		}
